@@ -68,6 +68,16 @@ def blocked_categories(w):
     return cats
 
 
+def word_disagrees_with_holders(w):
+    st = w.get('scenario_state') or {}
+    try:
+        word = int(st['mu_word'], 16)
+        W, R = int(st['shadow_W']), int(st['shadow_R'])
+    except (KeyError, ValueError, TypeError):
+        return False
+    return (word & 1) != (1 if W else 0) or (word >> 8) != R
+
+
 def mu_mix_owners(w, home):
     o = w.get('oracle', '')
     key = w.get('key', '')
@@ -90,6 +100,10 @@ def mu_mix_owners(w, home):
             s |= {'C06'}
         if 'waitn' in cats:
             s |= {'C04', 'C11'}
+        if word_disagrees_with_holders(w):
+            # the mutex word records a holder (or a reader count) that no thread accounts for, or the reverse: the lock's own
+            # record of who holds it is corrupt, which is what the exclusion property rests on (same attribution as final-word)
+            s |= {'C01', 'C02'}
         if not s:
             s = {home}
     elif o in ('trylock-blocked', 'asleep-on-free-mutex'):
@@ -139,7 +153,7 @@ PLANS = {
     'C01': dict(
         rule=RULE_B + RULE_A + 'non-trivial = at least one acquisition or wait of the execution slept, or a try-lock failed (real contention on the mutex).',
         groups=[
-            G('mu_mix', 'c-plain', 'B', 12, 2500, owners=mu_mix_owners),
+            G('mu_mix', 'c-plain', 'B', 14, 7000, owners=mu_mix_owners, thorough=50000),
             G('mu_mix', 'c-asan', 'B', 2, 1200, owners=mu_mix_owners),
             G('mu_mix', 'c-plain', 'A', 4, 1500, owners=mu_mix_owners, thorough=40000),
             G('mu_mix', 'cpp-plain', 'B', 8, 20000, owners=mu_mix_owners, tier='thorough', thorough=20000),
